@@ -11,9 +11,13 @@ def oligoSpec (k : Nat) (s : List Nat) (c : Nat) : Nat :=
 /-- number of valid windows -/
 def windowCount (k : Nat) (s : List Nat) : Nat := (specKmers k s).length
 
-/-- C04: the raw row -/
-def oligoRowSpec (k : Nat) (s : List Nat) : List Nat :=
-  (List.range (canonList k).length).map (oligoSpec k s)
+/-- C04: the raw row, one entry per canonical k-mer `cl` in column order -/
+def oligoRowSpecWith (cl : List Nat) (k : Nat) (s : List Nat) : List Nat :=
+  let cs := canons k s
+  cl.map fun x => countOcc x cs
+
+/-- C04: the raw row (entry `c` is `oligoSpec k s c`) -/
+def oligoRowSpec (k : Nat) (s : List Nat) : List Nat := oligoRowSpecWith (canonList k) k s
 
 /-- C07/C08: multiplicity of canonical code `x` in a list of records -/
 def countsOf (k : Nat) (recs : List (List Nat)) (x : Nat) : Nat :=
@@ -54,5 +58,14 @@ def cgrExactFrom (S : Nat) : Nat → Nat × Nat → List Nat → Option (List (N
 
 /-- C11: `none` = rejected; otherwise one `(X, Y, e)` per base meaning the point `(X / 2^e, Y / 2^e)` -/
 def cgrExact (S : Nat) (s : List Nat) : Option (List (Nat × Nat × Nat)) := cgrExactFrom S 0 (S, S) s
+
+end KT
+
+namespace KT
+
+/-- letter-case and T→U rewritings of a record (C04 invariances) -/
+def lowerNuc (b : Nat) : Nat := if b = 65 ∨ b = 67 ∨ b = 71 ∨ b = 84 ∨ b = 85 then b + 32 else b
+def upperNuc (b : Nat) : Nat := if b = 97 ∨ b = 99 ∨ b = 103 ∨ b = 116 ∨ b = 117 then b - 32 else b
+def tToU (b : Nat) : Nat := if b = 84 then 85 else if b = 116 then 117 else b
 
 end KT
